@@ -1,3 +1,4 @@
 import SedpackProofs.Hash
 import SedpackProofs.Filler
 import SedpackProofs.PoolThm
+import SedpackProofs.Pipe
